@@ -5,7 +5,7 @@ import warnings
 
 from ..runner import Report, kernel_phase
 from ..solverprop import Campaign, loss_of
-from ..solverworld import VALID_BASE, grad_formula
+from ..solverworld import VALID_BASE, grad_formula, addl_grad_formula, MODES
 
 PID = 'C04'
 GRAD_THEOREMS = ['loss_is_user_plus_additional', 'plain_step_sees_sum_of_batch_gradients', 'gradTrace_closureEvals',
@@ -24,6 +24,7 @@ def evaluate(camp):
         n_train, n_valid = int(p0[3]), int(p0[4])
         opt = p0[2]
         theta = theta0
+        with_addl = any(l.strip() == 'addl 1' for l in lines)
         for call, f in enumerate(fits):
             # the gradient present at every optimiser step: plain = SUM over the epoch's batches of the batch gradients (one
             # zero_grad before them, no rescaling); closure = gradient of the last closure evaluation of that batch alone
@@ -33,7 +34,7 @@ def evaluate(camp):
                     acc = 0
                 elif e.startswith('L') and e.split(':')[2] == '1':
                     lid, th, tr, idx = e[1:].split(':')
-                    acc += grad_formula(int(lid), int(th), True, int(idx))
+                    acc += grad_formula(int(lid), int(th), True, int(idx)) + (addl_grad_formula(int(th), True, int(idx)) if with_addl else 0)
                 elif e.startswith('S'):
                     want_grads.append(acc)
             if f.get('grads') is not None and f['grads'] != want_grads:
@@ -78,6 +79,11 @@ def evaluate(camp):
                 theta = d['theta']
                 # callbacks of this epoch may change the configuration for the next one
                 n_train, opt = d['nT'], d['opt']
+        # every forward pass of a fit() - training and validation alike - runs the networks in the mode they were given (training mode):
+        # "a validation epoch performs the same evaluation"
+        if run is not None and getattr(run, 'eval_mode_forwards', 0):
+            bad.append(dict(script=lines, kw=kw, violated='networks were switched to eval() mode during fit(): mode-dependent layers make the '
+                            'validation evaluation differ from the training evaluation', forwards_in_eval_mode=run.eval_mode_forwards))
         # routing: what the user's equations received on the last call
         if run is not None and run.eq_calls:
             rec = run.eq_calls[-1]
@@ -145,6 +151,14 @@ def routing_checks(seed):
                 or abs(_losses['infinity'](r, None, None).item() - 3.0) > 1e-12:
             bad.append(dict(case='named loss value'))
 
+        # default optimiser: every distinct parameter of all networks exactly once (one network shared by two unknowns)
+        shared = ScriptNet(1)
+        sd = S.Solver1D(lambda u, v, t: [u * 0, v * 0], [NoCondition(), NoCondition()], t_min=0., t_max=1., nets=[shared, shared],
+                        train_generator=g, valid_generator=g)
+        plist = [p for grp in sd.optimizer.param_groups for p in grp['params']]
+        if len(plist) != len({id(p) for p in plist}) or {id(p) for p in plist} != {id(p) for p in shared.parameters()}:
+            bad.append(dict(case='default optimiser over a network shared by two unknowns', parameters_registered=len(plist),
+                            distinct_parameters=len(list(shared.parameters()))))
         # h1 norms: mean square of the residual together with / of its gradient w.r.t. the coordinates
         xs_ = torch.tensor([[0.5], [1.5]], requires_grad=True)
         ys_ = torch.tensor([[2.0], [-1.0]], requires_grad=True)
